@@ -455,3 +455,237 @@ package fpgo
 //@   ensures same: seqeq(r0, list)
 //@   ensures fresh: fresh(r0)
 //@   ensures unchanged: unchanged(list)
+
+// ---- map-based helpers. In a range-over-map loop: _i = number of keys visited so far, _visited(x) = "x has been visited",
+//      _keyat(j) = j-th key visited, _n = number of keys at loop entry.
+
+//@ func SliceToMap
+//@   prop C03
+//@   ensures dom: forallv(x, has(r0, x) == exists(i, 0, len(input), input[i] == x))
+//@   ensures val: forallv(x, has(r0, x) ==> r0[x] == defaultValue)
+//@   ensures fresh: fresh(r0)
+//@   ensures unchanged: unchanged(input)
+//@ func SliceToMap loop 0
+//@   invariant dom: forallv(x, has(resultMap, x) == exists(i, 0, _i, input[i] == x))
+//@   invariant val: forallv(x, has(resultMap, x) ==> resultMap[x] == defaultValue)
+//@   invariant fresh: fresh(resultMap)
+
+//@ func Keys
+//@   prop C03
+//@   ensures len: len(r0) == len(m)
+//@   ensures members: forall(i, 0, len(r0), has(m, r0[i]))
+//@   ensures injective: forall(i, 0, len(r0), forall(j, 0, i, r0[j] != r0[i]))
+//@   ensures onto: forallv(x, has(m, x) ==> exists(i, 0, len(r0), r0[i] == x))
+//@   ensures fresh: fresh(r0)
+//@   ensures unchanged: unchangedmap(m)
+//@ func Keys loop 0
+//@   invariant count: i == _i && len(keys) == _n && _n == len(m) && fresh(keys)
+//@   invariant prefix: forall(j, 0, _i, keys[j] == _keyat(j))
+
+//@ func Values
+//@   prop C03
+//@   ensures len: len(r0) == len(m)
+//@   ensures members: forall(i, 0, len(r0), existsv(x, has(m, x) && m[x] == r0[i]))
+//@   ensures onto: forallv(x, has(m, x) ==> exists(i, 0, len(r0), r0[i] == m[x]))
+//@   ensures fresh: fresh(r0)
+//@   ensures unchanged: unchangedmap(m)
+//@ func Values loop 0
+//@   invariant count: i == _i && len(keys) == _n && _n == len(m) && fresh(keys)
+//@   invariant prefix: forall(j, 0, _i, keys[j] == m[_keyat(j)])
+
+//@ func DuplicateMap
+//@   prop C03
+//@   ensures dom: forallv(x, has(r0, x) == has(input, x))
+//@   ensures val: forallv(x, has(input, x) ==> r0[x] == input[x])
+//@   ensures fresh: fresh(r0)
+//@   ensures unchanged: unchangedmap(input)
+//@ func DuplicateMap loop 0
+//@   invariant dom: forallv(x, has(newOne, x) == _visited(x))
+//@   invariant val: forallv(x, has(newOne, x) ==> newOne[x] == input[x])
+//@   invariant fresh: fresh(newOne)
+
+//@ func Merge
+//@   prop C03
+//@   ensures dom: forallv(x, has(r0, x) == (has(map1, x) || has(map2, x)))
+//@   ensures second-wins: forallv(x, has(map2, x) ==> r0[x] == map2[x])
+//@   ensures first: forallv(x, has(map1, x) && !has(map2, x) ==> r0[x] == map1[x])
+//@   ensures fresh: fresh(r0)
+//@   ensures unchanged: unchangedmap(map1) && unchangedmap(map2)
+//@ func Merge loop 0
+//@   invariant dom: forallv(x, has(newMap, x) == _visited(x))
+//@   invariant val: forallv(x, has(newMap, x) ==> newMap[x] == map2[x])
+//@   invariant fresh: fresh(newMap)
+//@ func Merge loop 1
+//@   invariant dom: forallv(x, has(newMap, x) == _visited(x))
+//@   invariant val: forallv(x, has(newMap, x) ==> newMap[x] == map1[x])
+//@   invariant fresh: fresh(newMap)
+//@ func Merge loop 2
+//@   invariant dom: forallv(x, has(newMap, x) == _visited(x))
+//@   invariant val: forallv(x, has(newMap, x) ==> newMap[x] == map1[x])
+//@   invariant fresh: fresh(newMap)
+//@ func Merge loop 3
+//@   invariant dom: forallv(x, has(newMap, x) == (has(map1, x) || _visited(x)))
+//@   invariant val2: forallv(x, _visited(x) ==> newMap[x] == map2[x])
+//@   invariant val1: forallv(x, has(map1, x) && !_visited(x) ==> newMap[x] == map1[x])
+//@   invariant fresh: fresh(newMap)
+
+//@ func Zip
+//@   prop C03
+//@   ensures empty: len(list1) == 0 || len(list2) == 0 ==> forallv(x, !has(r0, x))
+//@   ensures dom: len(list1) > 0 && len(list2) > 0 ==> forallv(x, has(r0, x) == exists(i, 0, ite(len(list1) < len(list2), len(list1), len(list2)), list1[i] == x))
+//@   ensures val: len(list1) > 0 && len(list2) > 0 ==> forall(i, 0, ite(len(list1) < len(list2), len(list1), len(list2)), forall(j, i+1, ite(len(list1) < len(list2), len(list1), len(list2)), list1[j] != list1[i]) ==> r0[list1[i]] == list2[i])
+//@   ensures fresh: fresh(r0)
+//@   ensures unchanged: unchanged(list1) && unchanged(list2)
+//@ func Zip loop 0
+//@   invariant range: 0 <= i && i <= minLen && minLen <= len1 && minLen <= len2 && len1 == len(list1) && len2 == len(list2) && (minLen == len1 || minLen == len2)
+//@   invariant dom: forallv(x, has(newMap, x) == exists(k, 0, i, list1[k] == x))
+//@   invariant val: forall(k, 0, i, forall(j, k+1, i, list1[j] != list1[k]) ==> newMap[list1[k]] == list2[k])
+//@   invariant fresh: fresh(newMap)
+
+//@ func IsDistinct
+//@   prop C03
+//@   ensures def: len(list) > 0 ==> r0 == forall(i, 0, len(list), forall(j, 0, i, list[j] != list[i]))
+//@   ensures unchanged: unchanged(list)
+//@ func IsDistinct loop 0
+//@   invariant seen: forallv(x, has(s, x) == exists(j, 0, _i, list[j] == x))
+//@   invariant distinct: forall(i, 0, _i, forall(j, 0, i, list[j] != list[i]))
+//@   invariant fresh: fresh(s)
+
+//@ func IsEqualMap
+//@   prop C03
+//@   ensures def: len(map1) > 0 || len(map2) > 0 ==> r0 == (len(map1) == len(map2) && forallv(x, has(map1, x) ==> has(map2, x) && map2[x] == map1[x]))
+//@   ensures unchanged: unchangedmap(map1) && unchangedmap(map2)
+//@ func IsEqualMap loop 0
+//@   invariant all: forallv(x, _visited(x) ==> has(map2, x) && map2[x] == map1[x])
+//@ func IsEqualMap loop 1
+//@   invariant notyet: !found ==> forallv(x, _visited(x) ==> !(x == k1 && map2[x] == v1))
+//@   invariant found: found ==> has(map2, k1) && map2[k1] == v1
+
+//@ func Distinct
+//@   prop C03
+//@   ghost g (Array Int Int)
+//@   ghost pos (Array Int Int)
+//@   ensures sub: forall(j, 0, len(r0), 0 <= g[j] && g[j] < len(list) && r0[j] == list[g[j]] && forall(l, 0, g[j], list[l] != list[g[j]]))
+//@   ensures mono: forall(j, 0, len(r0), forall(l, 0, j, g[l] < g[j]))
+//@   ensures all: forall(k, 0, len(list), forall(l, 0, k, list[l] != list[k]) ==> 0 <= pos[k] && pos[k] < len(r0) && g[pos[k]] == k)
+//@   ensures fresh: fresh(r0)
+//@   ensures unchanged: unchanged(list)
+//@ func Distinct loop 0
+//@   ghostset g = ite(forall(l, 0, _i, list[l] != list[_i]), store(g, resultIndex-1, _i), g)
+//@   ghostset pos = ite(forall(l, 0, _i, list[l] != list[_i]), store(pos, _i, resultIndex-1), pos)
+//@   invariant n: 0 <= resultIndex && resultIndex <= _i && len(result) == len(list) && maxLen == len(list) && fresh(result) && fresh(s)
+//@   invariant seen: forallv(x, s[x] == exists(j, 0, _i, list[j] == x))
+//@   invariant sub: forall(j, 0, resultIndex, 0 <= g[j] && g[j] < _i && result[j] == list[g[j]] && forall(l, 0, g[j], list[l] != list[g[j]]))
+//@   invariant mono: forall(j, 0, resultIndex, forall(l, 0, j, g[l] < g[j]))
+//@   invariant all: forall(k, 0, _i, forall(l, 0, k, list[l] != list[k]) ==> 0 <= pos[k] && pos[k] < resultIndex && g[pos[k]] == k)
+
+//@ func UniqBy
+//@   prop C03
+//@   ghost g (Array Int Int)
+//@   ghost pos (Array Int Int)
+//@   ensures sub: forall(j, 0, len(r0), 0 <= g[j] && g[j] < len(list) && r0[j] == list[g[j]] && forall(l, 0, g[j], identify(list[l]) != identify(list[g[j]])))
+//@   ensures mono: forall(j, 0, len(r0), forall(l, 0, j, g[l] < g[j]))
+//@   ensures all: forall(k, 0, len(list), forall(l, 0, k, identify(list[l]) != identify(list[k])) ==> 0 <= pos[k] && pos[k] < len(r0) && g[pos[k]] == k)
+//@   ensures fresh: fresh(r0)
+//@   ensures unchanged: unchanged(list)
+//@ func UniqBy loop 0
+//@   ghostset g = ite(forall(l, 0, _i, identify(list[l]) != identify(list[_i])), store(g, len(result)-1, _i), g)
+//@   ghostset pos = ite(forall(l, 0, _i, identify(list[l]) != identify(list[_i])), store(pos, _i, len(result)-1), pos)
+//@   invariant n: len(result) <= _i && fresh(result) && fresh(identifiers)
+//@   invariant seen: forallv(x, has(identifiers, x) == exists(j, 0, _i, identify(list[j]) == x))
+//@   invariant sub: forall(j, 0, len(result), 0 <= g[j] && g[j] < _i && result[j] == list[g[j]] && forall(l, 0, g[j], identify(list[l]) != identify(list[g[j]])))
+//@   invariant mono: forall(j, 0, len(result), forall(l, 0, j, g[l] < g[j]))
+//@   invariant all: forall(k, 0, _i, forall(l, 0, k, identify(list[l]) != identify(list[k])) ==> 0 <= pos[k] && pos[k] < len(result) && g[pos[k]] == k)
+
+//@ func Partition
+//@   prop C03
+//@   ghost g1 (Array Int Int)
+//@   ghost pos1 (Array Int Int)
+//@   ghost g2 (Array Int Int)
+//@   ghost pos2 (Array Int Int)
+//@   ensures two: len(r0) == 2 && fresh(r0) && fresh(r0[0]) && fresh(r0[1])
+//@   ensures sub1: forall(j, 0, len(r0[0]), 0 <= g1[j] && g1[j] < len(list) && r0[0][j] == list[g1[j]] && predicate(list[g1[j]]))
+//@   ensures mono1: forall(j, 0, len(r0[0]), forall(l, 0, j, g1[l] < g1[j]))
+//@   ensures all1: forall(k, 0, len(list), predicate(list[k]) ==> 0 <= pos1[k] && pos1[k] < len(r0[0]) && g1[pos1[k]] == k)
+//@   ensures sub2: forall(j, 0, len(r0[1]), 0 <= g2[j] && g2[j] < len(list) && r0[1][j] == list[g2[j]] && !predicate(list[g2[j]]))
+//@   ensures mono2: forall(j, 0, len(r0[1]), forall(l, 0, j, g2[l] < g2[j]))
+//@   ensures all2: forall(k, 0, len(list), !predicate(list[k]) ==> 0 <= pos2[k] && pos2[k] < len(r0[1]) && g2[pos2[k]] == k)
+//@   ensures unchanged: unchanged(list)
+//@ func Partition loop 0
+//@   ghostset g1 = ite(predicate(list[_i]), store(g1, len(resultTrue)-1, _i), g1)
+//@   ghostset pos1 = ite(predicate(list[_i]), store(pos1, _i, len(resultTrue)-1), pos1)
+//@   ghostset g2 = ite(!predicate(list[_i]), store(g2, len(resultFalse)-1, _i), g2)
+//@   ghostset pos2 = ite(!predicate(list[_i]), store(pos2, _i, len(resultFalse)-1), pos2)
+//@   invariant n: len(resultTrue) <= _i && len(resultFalse) <= _i && fresh(resultTrue) && fresh(resultFalse) && base(resultTrue) != base(resultFalse)
+//@   invariant sub1: forall(j, 0, len(resultTrue), 0 <= g1[j] && g1[j] < _i && resultTrue[j] == list[g1[j]] && predicate(list[g1[j]]))
+//@   invariant mono1: forall(j, 0, len(resultTrue), forall(l, 0, j, g1[l] < g1[j]))
+//@   invariant all1: forall(k, 0, _i, predicate(list[k]) ==> 0 <= pos1[k] && pos1[k] < len(resultTrue) && g1[pos1[k]] == k)
+//@   invariant sub2: forall(j, 0, len(resultFalse), 0 <= g2[j] && g2[j] < _i && resultFalse[j] == list[g2[j]] && !predicate(list[g2[j]]))
+//@   invariant mono2: forall(j, 0, len(resultFalse), forall(l, 0, j, g2[l] < g2[j]))
+//@   invariant all2: forall(k, 0, _i, !predicate(list[k]) ==> 0 <= pos2[k] && pos2[k] < len(resultFalse) && g2[pos2[k]] == k)
+
+// Concat: the ghost array start holds the offset at which each argument slice begins in the result.
+//@ func Concat
+//@   prop C03
+//@   ghost start (Array Int Int)
+//@   ghostinit start = store(start, 0, len(mine))
+//@   ensures offsets: start[0] == len(mine) && forall(k, 0, len(slices), start[k+1] == start[k] + len(slices[k]))
+//@   ensures len: len(r0) == start[len(slices)]
+//@   ensures mine: forall(i, 0, len(mine), r0[i] == mine[i])
+//@   ensures rest: forall2(k, 0, len(slices), j, 0, len(slices[k]), r0[start[k]+j] == slices[k][j])
+//@   ensures fresh: fresh(r0)
+//@   ensures unchanged: unchanged(mine)
+//@ func Concat loop 0
+//@   ghostset start = store(start, _i+1, totalLen)
+//@   invariant sums: start[0] == len(mine) && mineLen == len(mine) && totalLen == start[_i] && forall(k, 0, _i, start[k+1] == start[k] + len(slices[k]))
+//@   invariant mono: forall2(a, 0, _i+1, b, a, _i+1, start[a] <= start[b])
+//@ func Concat loop 1
+//@   invariant shape: len(newOne) == totalLen && fresh(newOne)
+//@   invariant copied: forall(j, 0, _i, newOne[j] == mine[j])
+//@ func Concat loop 2
+//@   invariant shape: len(newOne) == totalLen && fresh(newOne) && totalIndex == start[_i]
+//@   invariant mine: forall(j, 0, len(mine), newOne[j] == mine[j])
+//@   invariant rest: forall2(k, 0, _i, j, 0, len(slices[k]), newOne[start[k]+j] == slices[k][j])
+//@ func Concat loop 3
+//@   invariant shape: len(newOne) == totalLen && fresh(newOne) && targetLen == len(target) && target == slices[_i2] && totalIndex == start[_i2]
+//@   invariant mine: forall(l, 0, len(mine), newOne[l] == mine[l])
+//@   invariant rest: forall2(k, 0, _i2, l, 0, len(slices[k]), newOne[start[k]+l] == slices[k][l])
+//@   invariant cur: forall(l, 0, _i, newOne[totalIndex+l] == target[l])
+
+//@ func Flatten
+//@   prop C03
+//@   ghost start (Array Int Int)
+//@   ghostset start = Concat_start
+//@   ensures offsets: start[0] == 0 && forall(k, 0, len(list), start[k+1] == start[k] + len(list[k]))
+//@   ensures len: len(r0) == start[len(list)]
+//@   ensures elems: forall2(k, 0, len(list), j, 0, len(list[k]), r0[start[k]+j] == list[k][j])
+//@   ensures fresh: fresh(r0)
+
+// Range (integer instantiations; T is modelled as a mathematical integer, so "higher+hop is representable" is assumed)
+//@ func Range
+//@   prop C03
+//@   ensures badhop: len(hops) > 0 && hops[0] <= 0 ==> len(r0) == 0
+//@   ensures empty: lower >= higher ==> len(r0) == 0
+//@   ensures first: lower < higher && !(len(hops) > 0 && hops[0] <= 0) ==> len(r0) > 0 && r0[0] == lower
+//@   ensures step: forall(k, 0, len(r0)-1, r0[k+1] == r0[k] + ite(len(hops) > 0, hops[0], 1))
+//@   ensures last: len(r0) > 0 ==> r0[len(r0)-1] < higher && r0[len(r0)-1] + ite(len(hops) > 0, hops[0], 1) >= higher
+//@   ensures fresh: freshOrNil(r0)
+//@ func Range loop 0
+//@   invariant hop: hop > 0 && hop == ite(len(hops) > 0, hops[0], 1) && lower < higher && freshOrNil(l)
+//@   invariant first: (len(l) == 0 ==> v == lower) && (len(l) > 0 ==> l[0] == lower && v == l[len(l)-1] + hop && l[len(l)-1] < higher)
+//@   invariant step: forall(k, 0, len(l)-1, l[k+1] == l[k] + hop)
+
+// SplitEvery and GroupBy: safety (no panic, inputs untouched) and the guarded corner only; the grouping itself is not specified here.
+//@ func SplitEvery
+//@   prop C03
+//@   ensures corner: size <= 0 || len(list) <= 1 ==> len(r0) == 1 && r0[0] == list
+//@   ensures unchanged: unchanged(list)
+//@ func SplitEvery loop 0
+//@   invariant fresh: fresh(result) && fresh(currentGroup)
+
+//@ func GroupBy
+//@   prop C03
+//@   ensures fresh: fresh(r0)
+//@   ensures unchanged: unchanged(list)
+//@ func GroupBy loop 0
+//@   invariant fresh: fresh(result) && forallv(x, freshOrNil(result[x]))
